@@ -813,6 +813,308 @@ def bcast_cases(chk):
             chk.corr_break(cell, f"model bcastSum `{o[:80]}` vs torch sum_to_size {want.tolist()[:8]}", {"cell": cell})
 
 
+# ---------------------------------------------------------------------------------------------- (session 5) entry points vs the model
+ENTRY_MODEL = ["to_dense", "diagonal", "getitem", "sum-1", "sum-2"]
+
+
+def entry_model_cases(chk, insts_by, only=None):
+    """Entry points that reach `_bilinear_derivative` through Matmul with a special right-hand side, against the Lean model's
+    `toDenseBackward` / `diagonalBackward` / `getitemBackward` / `sumLastBackward` / `sumFirstBackward` (= `bilinDeriv` with the
+    factors (G, eye), (diag g, eye), (g e_i, e_j), (g, ones), (ones, g); theorems toDense_backward .. sum_backward): backprop of the
+    weighted output on the implementation = dense reference = Lean model summed over batch members (exact on integer data).
+    Own random stream (does not shift the values of the older cells)."""
+    rng = random.Random(f"C07x:{chk.seed}")
+    quick = chk.tier == "quick"
+    lean_jobs = []
+    for (batch, mode), insts in insts_by.items():
+        if mode not in ("full", "bcast") or len(batch) > 1:
+            continue
+        if quick and (batch, mode) == ((2,), "full"):
+            continue
+        for inst in insts:
+            if not inst.lean:
+                continue
+            n, m = inst.shape()
+            nb = tuple(inst.nb)
+            entries = list(ENTRY_MODEL)
+            if quick and mode == "bcast":
+                entries = ["to_dense", rng.choice(ENTRY_MODEL[1:])]
+            for entry in entries:
+                if entry == "diagonal" and n != m:
+                    continue
+                for sk in (("all", "partial") if entry == "to_dense" and not (quick and mode == "bcast") else ("all",)):
+                    cell = f"C07/entry-model/{entry}/{inst.name}<b={batch}|{mode}>/req={sk}"
+                    if only and not cell.startswith(only):
+                        continue
+                    payload = {"cell": cell, "seed": chk.seed, "tier": chk.tier}
+                    try:
+                        one_entry_model(chk, rng, inst, entry, sk, cell, payload, lean_jobs, n, m, nb)
+                    except Exception as e:  # noqa
+                        chk.violation(cell + "/exception", f"{type(e).__name__}: {str(e)[:300]}", payload)
+    finish_lean_jobs(chk, lean_jobs)
+
+
+def one_entry_model(chk, rng, inst, entry, sk, cell, payload, lean_jobs, n, m, nb):
+    req = subset_of(rng, inst.names, sk)
+    names = [k for k in inst.names if k in req]
+    eye = lambda k: torch.eye(k, dtype=torch.float64).expand(*nb, k, k).contiguous()  # noqa
+    ones = lambda k: torch.ones(*nb, k, 1, dtype=torch.float64)  # noqa
+    if entry == "to_dense":
+        Wt = ops.ri(rng, (*nb, n, m), -2, 2)
+        U, V, d = Wt, eye(m), m
+        f = lambda A, is_op: ((A.to_dense() if is_op else A) * Wt).sum()  # noqa
+    elif entry == "diagonal":
+        g = ops.ri(rng, (*nb, n), -2, 2)
+        U, V, d = torch.diag_embed(g), eye(n), n
+        f = lambda A, is_op: ((A.diagonal() if is_op else A.diagonal(dim1=-2, dim2=-1)) * g).sum()  # noqa
+    elif entry == "getitem":
+        i, j = rng.randrange(n), rng.randrange(m)
+        g = ops.ri(rng, (*nb,), 1, 3) if nb else torch.tensor(float(rng.randint(1, 3)), dtype=torch.float64)
+        U = torch.zeros(*nb, n, 1, dtype=torch.float64)
+        U[..., i, 0] = g
+        V = torch.zeros(*nb, m, 1, dtype=torch.float64)
+        V[..., j, 0] = 1.0
+        d = 1
+        cell_ij = (i, j)
+
+        def f(A, is_op):
+            r = A[..., cell_ij[0], cell_ij[1]]
+            r = r.to_dense() if not torch.is_tensor(r) else r
+            return (r * g).sum()
+    elif entry == "sum-1":
+        g = ops.ri(rng, (*nb, n), -2, 2)
+        U, V, d = g.unsqueeze(-1).contiguous(), ones(m), 1
+
+        def f(A, is_op):
+            r = A.sum(-1)
+            r = r.to_dense() if not torch.is_tensor(r) else r
+            return (r * g).sum()
+    else:
+        g = ops.ri(rng, (*nb, m), -2, 2)
+        U, V, d = ones(n), g.unsqueeze(-1).contiguous(), 1
+
+        def f(A, is_op):
+            r = A.sum(-2)
+            r = r.to_dense() if not torch.is_tensor(r) else r
+            return (r * g).sum()
+    U, V = U.double(), V.double()
+    chk.case(f"{cell}|{sorted(req)}|U={U.flatten()[:6].tolist()}", nontrivial=True)
+    chk.count("entry-model:" + entry)
+    Pd = inst.params(req)
+    gs = torch.autograd.grad(f(inst.dense(Pd), False), [Pd[k] for k in names], allow_unused=True) if names else []
+    spec = {k: zeros_like_none(x, Pd[k]) for k, x in zip(names, gs)}
+    P = inst.params(req)
+    op = inst.build(P)
+    try:
+        val = f(op, True)
+    except Exception:  # forward failure: not a gradient question
+        chk.count("skipped:forward-raises")
+        return
+    gi = torch.autograd.grad(val, [P[k] for k in names], allow_unused=True) if (names and val.requires_grad) else [None] * len(names)
+    impl = {k: zeros_like_none(x, P[k]) for k, x in zip(names, gi)}
+    bad = [k for k in names if not close(impl[k], spec[k], inst.exact, 1e-9)]
+    if bad:
+        k = bad[0]
+        chk.violation(cell + "/grad", f"gradient of the weighted {entry} output w.r.t. leaf {k} {tuple(P[k].shape)}: impl {impl[k].flatten()[:6].tolist()} "
+                      f"vs dense reference {spec[k].flatten()[:6].tolist()}", payload)
+        return
+    lean_jobs.append(make_lean_job(inst, cell, P, U, V, d, names, impl, payload))
+
+
+def bilinear_mixed_cases(chk, insts_by, only=None):
+    """Direct `_bilinear_derivative(U, V)` calls with the MIXED batch shapes that the Functions' backward passes produce
+    (`Matmul.backward`: grad_output carries the full broadcast batch, the saved rhs may have fewer / size-1 / no batch dims; an
+    extra leading batch dim on both): implementation (tuple discipline, values pulled back to the leaves) = dense reference
+    `autograd((U * (D @ V)).sum())` = Lean `bilinDeriv` per (broadcast) batch member, summed — exact.  U always carries the
+    full batch (the only shape reachable through the entry points)."""
+    rng = random.Random(f"C07m:{chk.seed}")
+    quick = chk.tier == "quick"
+    lean_jobs = []
+    for (batch, mode), insts in insts_by.items():
+        if mode not in ("full", "bcast") or len(batch) > 1 or (quick and mode == "bcast"):
+            continue
+        for inst in insts:
+            if not inst.lean or inst.node.kind == "brep":
+                continue
+            n, m = inst.shape()
+            nb = tuple(inst.nb)
+            # V = the saved rhs (any batch broadcastable against the operator's), U = grad_output: batch = broadcast(op batch, rhs batch)
+            vbs = [(), (1,) * len(nb), (3,) + nb, (3,) + (1,) * len(nb)] if nb else [(3,), (2, 3), (1,)]
+            pats = [(tuple(torch.broadcast_shapes(nb, vb)), vb) for vb in vbs]
+            if quick:
+                pats = [pats[0], rng.choice(pats[1:])]
+            for ub, vb in pats:
+                cell = f"C07/bilinear-mixed/{inst.name}<b={batch}|{mode}>/U={ub}/V={vb}".replace(" ", "")
+                if only and not cell.startswith(only):
+                    continue
+                payload = {"cell": cell, "seed": chk.seed, "tier": chk.tier}
+                d = 2
+                U = ops.ri(rng, (*ub, n, d), -2, 2).double()
+                V = ops.ri(rng, (*vb, m, d), -2, 2).double()
+                try:
+                    one_bilinear_mixed(chk, inst, cell, U, V, ub, vb, d, n, m, nb, payload, lean_jobs)
+                except Exception as e:  # noqa
+                    chk.violation(cell + "/exception", f"{type(e).__name__}: {str(e)[:300]}", payload)
+    finish_lean_jobs(chk, lean_jobs)
+
+
+def one_bilinear_mixed(chk, inst, cell, U, V, ub, vb, d, n, m, nb, payload, lean_jobs):
+    names = list(inst.names)
+    req = set(names)
+    chk.case(f"{cell}|U={U.flatten()[:6].tolist()}", nontrivial=True)
+    chk.count("bilinear-mixed:" + str(len(ub)) + "/" + str(len(vb)))
+    Pd = inst.params(req)
+    D = inst.dense(Pd)
+    gs = torch.autograd.grad((U * (D @ V)).sum(), [Pd[k] for k in names], allow_unused=True)
+    spec = {k: zeros_like_none(g, Pd[k]) for k, g in zip(names, gs)}
+    P = inst.params(req)
+    op = inst.build(P)
+    rep = op.representation()
+    grads = op._bilinear_derivative(U, V)
+    err, red = check_tuple(rep, grads)
+    if err:
+        chk.violation(cell + "/tuple", err, payload)
+        return
+    impl = to_leaves(rep, red, P, names)
+    bad = [k for k in names if not close(impl[k], spec[k], inst.exact, 1e-9)]
+    if bad:
+        k = bad[0]
+        chk.violation(cell + "/value", f"_bilinear_derivative(U batch {ub}, V batch {vb}) gradient of leaf {k} {tuple(P[k].shape)}: impl "
+                      f"{impl[k].flatten()[:6].tolist()} vs dense reference {spec[k].flatten()[:6].tolist()}", payload)
+        return
+    full = torch.broadcast_shapes(tuple(ub), tuple(vb), nb)
+    Ub = U.expand(*full, n, d)
+    Vb = V.expand(*full, m, d)
+    Pv = {k: v.detach() for k, v in P.items()}
+    lines, tags = [], []
+    for idx in itertools.product(*[range(s) for s in full]):
+        midx = idx[len(full) - len(nb):] if nb else ()
+        toks, sc = ops.emit(inst.node, Pv, inst.nb, midx)
+        lines.append(f"bd {d} {' '.join(toks)} {','.join(fr(s[0]) for s in sc) or '-'} {flat(Ub[idx])} {flat(Vb[idx])}")
+        tags.append(sc)
+    lean_jobs.append({"cell": cell, "lines": lines, "tags": tags, "impl": {k: impl[k].detach().clone() for k in names},
+                      "shapes": {k: tuple(P[k].shape) for k in names}, "exact": inst.exact, "payload": payload})
+
+
+def skip_logdet_cases(chk, insts_by, only=None):
+    """`settings.skip_logdet_forward` must not change any gradient of inv_quad_logdet (InvQuadLogdet function, CG path with the
+    complete orthonormal probe set): flag on vs off identical, and both equal to the dense reference; theorem
+    invQuadLogdet_settings_irrelevant.  Crossed with memory_efficient."""
+    from linear_operator import settings
+    from linear_operator.operators import LinearOperator
+    rng = random.Random(f"C07s:{chk.seed}")
+    quick = chk.tier == "quick"
+    for (batch, mode), insts in insts_by.items():
+        if mode != "full" or len(batch) > 1:
+            continue
+        for inst in insts:
+            if not inst.psd or (quick and inst.light and batch != ()):
+                continue
+            n, _ = inst.shape()
+            for memeff in ((False,) if quick and batch != () else (False, True)):
+                cell = f"C07/entry-skiplogdet/{inst.name}<b={batch}|{mode}>/memeff={int(memeff)}"
+                if only and not cell.startswith(only):
+                    continue
+                payload = {"cell": cell, "seed": chk.seed, "tier": chk.tier}
+                rhs0 = ops.ri(rng, (*inst.nb, n, 2), -2, 2).double()
+                w1, w2 = float(rng.randint(1, 3)), float(rng.randint(1, 3))
+                names = list(inst.names)
+                res = {}
+                tseed = rng.randrange(2 ** 31)
+                try:
+                    for skip in (False, True):
+                        with ExitStack() as st:
+                            st.enter_context(settings.skip_logdet_forward(skip))
+                            st.enter_context(settings.memory_efficient(memeff))
+                            st.enter_context(settings.max_cholesky_size(0))
+                            st.enter_context(settings.cg_tolerance(1e-10))
+                            st.enter_context(settings.max_cg_iterations(200))
+                            st.enter_context(settings.max_lanczos_quadrature_iterations(50))
+                            st.enter_context(mock.patch.object(LinearOperator, "_probe_vectors_and_norms", eye_probes))
+                            P = inst.params(set(names))
+                            rhs = rhs0.clone().requires_grad_(True)
+                            torch.manual_seed(tseed)  # same random start vectors (Lanczos / preconditioner) under both flag values
+                            iq, ld = inst.build(P).inv_quad_logdet(rhs, logdet=True)
+                            out = (iq * w1 + ld * w2).sum()
+                            gi = torch.autograd.grad(out, [P[k] for k in names] + [rhs], allow_unused=True)
+                            res[skip] = ([zeros_like_none(x, t) for x, t in zip(gi, [P[k] for k in names] + [rhs])], ld.detach())
+                except Exception as e:  # noqa
+                    chk.count("skipped:forward-raises")
+                    chk.count(f"skipped:forward-raises:skiplogdet:{type(e).__name__}")
+                    continue
+                chk.case(f"{cell}|rhs={rhs0.flatten()[:4].tolist()}", nontrivial=True)
+                chk.count("entry:skip_logdet_forward")
+                Pd = inst.params(set(names))
+                rd = rhs0.clone().requires_grad_(True)
+                A = inst.dense(Pd)
+                outd = ((rd * torch.linalg.solve(A, rd)).sum((-2, -1)) * w1 + torch.logdet(A) * w2).sum()
+                gr = torch.autograd.grad(outd, [Pd[k] for k in names] + [rd], allow_unused=True)
+                labels = names + ["<rhs>"]
+                failed = False
+                for lab, a0, a1, b, t in zip(labels, res[False][0], res[True][0], gr, [Pd[k] for k in names] + [rd]):
+                    b = zeros_like_none(b, t)
+                    if lab in inst.sym:
+                        a0, a1, b = (a0 + a0.mT) / 2, (a1 + a1.mT) / 2, (b + b.mT) / 2
+                    if not close(a1, a0, False, 1e-6):  # two runs of an iterative solve (cg_tolerance 1e-10); not bitwise
+                        chk.violation(cell + "/flag-dependence", f"gradient w.r.t. {lab} differs with skip_logdet_forward on vs off: "
+                                      f"{a1.flatten()[:6].tolist()} vs {a0.flatten()[:6].tolist()}", payload)
+                        failed = True
+                        break
+                    if not close(a1, b, False, 2e-4):
+                        chk.violation(cell + "/grad", f"skip_logdet_forward(True): gradient w.r.t. {lab} {tuple(t.shape)}: impl {a1.flatten()[:6].tolist()} vs dense "
+                                      f"reference {b.flatten()[:6].tolist()}", payload)
+                        failed = True
+                        break
+                if not failed:
+                    chk.traces_validated += 1
+
+
+def translator_cases(chk):
+    """C07Funcs.lean (generated): cross-check the AST facts against the run-time objects."""
+    import inspect
+    import linear_operator.functions as F  # noqa
+    import linear_operator.operators as O  # noqa
+    import importlib
+    from ..extract import c07_functions as fx
+    funcs, provs = fx.generate()
+    mods = {}
+    for fn in fx.FUNC_FILES:
+        mod = importlib.import_module("linear_operator.functions." + fn[:-3])
+        for name, obj in vars(mod).items():
+            if inspect.isclass(obj) and issubclass(obj, torch.autograd.Function) and obj.__module__ == mod.__name__:
+                mods[name] = obj
+    for f in funcs:
+        cls = mods.get(f["name"])
+        chk.case(f"C07/translator/func/{f['name']}", nontrivial=True, sample=False)
+        if cls is None:
+            chk.proof_break(f"translator(func {f['name']})", "class found by ast is not a run-time autograd Function")
+            continue
+        sig = inspect.signature(cls.forward)
+        ps = list(sig.parameters.values())
+        fixed = sum(1 for p in ps[1:] if p.kind in (p.POSITIONAL_ONLY, p.POSITIONAL_OR_KEYWORD))
+        var = any(p.kind == p.VAR_POSITIONAL for p in ps)
+        if fixed != f["fwdFixed"] or var != f["fwdVarargs"]:
+            chk.proof_break(f"translator(func {f['name']})", f"forward signature at run time ({fixed}, *args={var}) vs ast ({f['fwdFixed']}, {f['fwdVarargs']})")
+        else:
+            chk.traces_validated += 1
+    if set(mods) != {f["name"] for f in funcs}:
+        chk.proof_break("translator(funcs)", f"run-time Functions {sorted(mods)} vs ast {sorted(f['name'] for f in funcs)}")
+    for cname, prov in provs:
+        cls = getattr(O, cname, None)
+        if cls is None:
+            continue  # not exported (private helper)
+        chk.case(f"C07/translator/provider/{cname}", nontrivial=True, sample=False)
+        owner = next((k.__name__ for k in cls.__mro__ if "_bilinear_derivative" in vars(k)), None)
+        if owner != prov:
+            chk.proof_break(f"translator(provider {cname})", f"run-time MRO resolves _bilinear_derivative to {owner}, ast table says {prov}")
+        else:
+            chk.traces_validated += 1
+    exported = {n for n in dir(O) if inspect.isclass(getattr(O, n)) and issubclass(getattr(O, n), O.LinearOperator)}
+    missing = exported - {c for c, _ in provs}
+    if missing:
+        chk.proof_break("translator(providers)", f"exported operator classes missing from the ast table: {sorted(missing)}")
+
+
 # ---------------------------------------------------------------------------------------------- run
 def gen_instances(chk):
     quick = chk.tier == "quick"
@@ -829,7 +1131,10 @@ def run(chk, only=None):
     chk.rule = ("catalogue of operator expression trees (every class with hand-written derivative code, nestings of depth <= 3, classes using the "
                 "autograd default under hand-written parents) x batch shape x {full, broadcast (expanded stride-0) leaves} x number of vector pairs x "
                 "subset of leaves requiring grad; entry points x rhs shape x memory_efficient x max_cholesky_size; a case is distinct by its cell, "
-                "subset and random integer data; all are non-trivial (sizes >= 2, non-zero data)")
+                "subset and random integer data; all are non-trivial (sizes >= 2, non-zero data); session 5: entry-model cells (to_dense / diagonal / "
+                "getitem / sum through the implementation vs the Lean factors), bilinear-mixed cells (direct _bilinear_derivative calls with the mixed "
+                "batch shapes Matmul.backward produces), entry-skiplogdet cells (skip_logdet_forward on/off x memory_efficient), translator cells "
+                "(ast table of the 9 autograd Functions and of the provider of every operator class's _bilinear_derivative vs run-time objects)")
     chk.assumptions += ["torch.autograd applies the chain rule correctly to plain torch code (the dense reference) and to the library's backward formulas",
                         "dual numbers (eps^2 = 0) define the derivative of polynomial operators; floating point is not modelled (integer data are exact)",
                         "FFT-based Toeplitz products and factorisation / iterative paths are compared with tolerances (1e-9 / 1e-7 / 2e-4 on CG, Lanczos paths)",
@@ -837,10 +1142,15 @@ def run(chk, only=None):
                         "factor-sensitive losses: eigenvector matrices are compared up to the implementation's column order / signs and only for a relative "
                         "eigenvalue gap >= 3e-2; pivoted Cholesky for the implementation's pivots; the Lanczos root / inverse root (defined up to an orthogonal "
                         "factor) in the symmetric gauge dR = 1/2 dA R^-T of the implementation's own root (the formula RootDecomposition.backward documents)"]
-    chk.prove("LinOp.Properties.C07", ["LinOp/C07", "LinOp/Core"])
+    part = only.split("/")[1] if only else None
+    if part in (None, "translator"):
+        translator_cases(chk)  # regenerates lean/LinOp/Generated/C07Funcs.lean BEFORE the build
+    else:
+        from ..extract import c07_functions as fx
+        fx.generate()
+    chk.prove("LinOp.Properties.C07", ["LinOp/C07", "LinOp/Core", "LinOp/Generated/C07Funcs.lean"])
     torch.set_default_dtype(torch.float32)
     insts_by = gen_instances(chk)
-    part = only.split("/")[1] if only else None
     lean_jobs = []
     if part in (None, "bilinear", "bilinear-sym"):
         bilinear_cases(chk, insts_by, lean_jobs, only)
@@ -853,6 +1163,12 @@ def run(chk, only=None):
         bcast_cases(chk)
     if part in (None, "entry"):
         entry_cases(chk, insts_by, only)
+    if part in (None, "entry-model"):
+        entry_model_cases(chk, insts_by, only)
+    if part in (None, "bilinear-mixed"):
+        bilinear_mixed_cases(chk, insts_by, only)
+    if part in (None, "entry-skiplogdet"):
+        skip_logdet_cases(chk, insts_by, only)
 
 
 def replay(chk, payload):
